@@ -119,18 +119,19 @@ type attemptSeen struct {
 }
 
 type exchange struct {
-	method    string
-	url       string
-	header    http.Header
-	bodyLen   int
-	chunked   bool
-	unframed  bool // with chunked: no declared length and no chunked encoding either
-	reader    *faultyReader
-	cancelled bool
-	scripts   []attemptScript
-	seen      []attemptSeen
-	rec       *simkit.Recorder
-	panicked  any
+	method     string
+	url        string
+	header     http.Header
+	bodyLen    int
+	chunked    bool
+	unframed   bool // with chunked: no declared length and no chunked encoding either
+	breakAfter int  // the client goes away after that many response body bytes (-1: stays)
+	reader     *faultyReader
+	cancelled  bool
+	scripts    []attemptScript
+	seen       []attemptSeen
+	rec        *simkit.Recorder
+	panicked   any
 }
 
 // payload byte of attempt a
@@ -275,6 +276,7 @@ func (ex *exchange) request() *http.Request {
 // run sends the exchange through b; a panic of the client writer is captured.
 func (ex *exchange) run(b *buffer.Buffer) {
 	ex.rec = simkit.NewRecorder()
+	ex.rec.BreakAfter = ex.breakAfter
 	func() {
 		defer func() { ex.panicked = recover() }()
 		b.ServeHTTP(ex.rec, ex.request())
